@@ -9,6 +9,7 @@ package main
 
 import (
 	"bytes"
+	"fmt"
 	"encoding/json"
 	"os"
 	"path/filepath"
@@ -52,11 +53,13 @@ type Outcome struct {
 }
 
 // countWriter counts "Repagination" lines of the progress logger
-type countWriter struct{ rounds int32 }
+type countWriter struct{ rounds, pages int32 }
 
 func (c *countWriter) Write(p []byte) (int, error) {
 	if bytes.Contains(p, []byte("Repagination #")) {
 		atomic.AddInt32(&c.rounds, 1)
+	} else if bytes.Contains(p, []byte("Creating layout - Page")) {
+		atomic.AddInt32(&c.pages, 1)
 	}
 	return len(p), nil
 }
@@ -130,7 +133,8 @@ func repoFrames(stack string, afterPanic bool, max int) []string {
 		if !seen {
 			continue
 		}
-		if strings.HasPrefix(t, "/repo/") {
+		if k := strings.Index(t, "/repo/"); k >= 0 && strings.HasPrefix(t, "/") && strings.Contains(t, ".go:") {
+			t = t[k:]
 			if j := strings.Index(t, " "); j > 0 {
 				t = t[:j]
 			}
@@ -208,7 +212,7 @@ func renderDoc(d *Doc, o *Outcome) {
 	}
 	var sheets []tree.CSS
 	for _, s := range d.UserCSS() {
-		c, err := tree.NewCSS(utils.InputString(s), "http://verif.test/", fetcher, false, "print", nil, nil, nil, nil)
+		c, err := tree.NewCSSDefault(utils.InputString(s))
 		if err != nil {
 			o.Err = "user css: " + err.Error()
 			continue
@@ -261,6 +265,12 @@ func runDoc(d *Doc, timeout time.Duration) Outcome {
 			}
 		}
 		o.Site = hangSite(o.Frames)
+		if np := atomic.LoadInt32(&cw.pages); np >= 300 {
+			// pagination is progressing through a huge document (cost proportional
+			// to the output), not stuck
+			o.Site = "hang@many-pages"
+			o.Msg = fmt.Sprintf("%d pages made when the watchdog fired", np)
+		}
 		if len(o.Frames) > 12 {
 			o.Frames = append(o.Frames[:8:8], o.Frames[len(o.Frames)-4:]...)
 		}
@@ -278,13 +288,38 @@ func runDoc(d *Doc, timeout time.Duration) Outcome {
 // belongs to the layout / document / tree / text packages (function name, no
 // line: the sampled line inside a loop is arbitrary).
 func hangSite(frames []string) string {
+	// innermost landmark function (the sampled innermost frame itself is arbitrary)
 	for _, f := range frames {
 		p := strings.Fields(f)
+		if len(p) != 2 {
+			continue
+		}
+		for _, lm := range hangLandmarks {
+			if strings.HasSuffix(p[1], lm) {
+				return "hang@" + lm
+			}
+		}
+	}
+	if len(frames) > 0 {
+		p := strings.Fields(frames[len(frames)-1])
 		if len(p) == 2 {
 			return "hang@" + p[1]
 		}
 	}
 	return "hang@?"
+}
+
+var hangLandmarks = []string{
+	"text.(*TextLayoutPango).GetFirstLine", "text.(*FontConfigurationGotext).wrapWordBreak",
+	"text.(*FontConfigurationPango).splitFirstLine", "text.(*FontConfigurationGotext).splitFirstLine",
+	"layout.tableLayout", "layout.autoTableLayout", "layout.flexLayout", "layout.gridLayout", "layout.columnsLayout",
+	"layout.floatLayout", "layout.absoluteLayout", "layout.avoidCollisions",
+	"layout.inlineMinContentWidth", "layout.inlineMaxContentWidth", "layout.tableAndColumnsPreferredWidths",
+	"layout.getNextLinebox", "layout.blockContainerLayout",
+	"layout.makeMarginBoxes", "layout.(*layoutContext).makePage", "layout.(*layoutContext).makeAllPages",
+	"layout.layoutDocument", "boxes.BuildFormattingStructure", "tree.GetAllComputedStyles",
+	"document.drawContext.drawBorder", "document.drawContext.drawBackground", "document.drawContext.drawStackingContext",
+	"document.(*Document).Write", "tree.NewHTML",
 }
 
 func docHasFontFace(d *Doc) bool {
